@@ -562,11 +562,22 @@ func c17R4(p *core.Program, r *core.Report, rels ...string) {
 							keyed = true
 						}
 					}
-					// read after the loop?
+					// read after the loop? (the field itself, or its holder used as a whole: returned, passed on, stored)
 					live := false
+					var stack []ast.Node
 					ast.Inspect(f.Root().Body, func(k ast.Node) bool {
+						if k == nil {
+							stack = stack[:len(stack)-1]
+							return false
+						}
+						stack = append(stack, k)
 						if e, ok := k.(ast.Expr); ok && k.Pos() >= loop.End() && core.SameRef(info, e, l) {
 							live = true
+						}
+						if id, ok := k.(*ast.Ident); ok && isField && k.Pos() >= loop.End() && info.ObjectOf(id) == types.Object(rv) && len(stack) >= 2 {
+							if sel, isSel := stack[len(stack)-2].(*ast.SelectorExpr); !isSel || sel.X != ast.Expr(id) {
+								live = true
+							}
 						}
 						return true
 					})
@@ -574,10 +585,23 @@ func c17R4(p *core.Program, r *core.Report, rels ...string) {
 						continue
 					}
 					construct := "`" + core.ExprStr(l) + "` is overwritten on every iteration and read after the loop"
+					rf := f
+					if fld := core.FieldOf(info, l); fld != nil && isField {
+						// a field is identified by its type, not by the variable or function that happens to hold it
+						owner := ""
+						if sel, ok := ast.Unparen(l).(*ast.SelectorExpr); ok {
+							owner = core.NamedTypeName(info.TypeOf(sel.X))
+							if i := strings.LastIndex(owner, "."); i >= 0 {
+								owner = owner[i+1:]
+							}
+						}
+						construct = "field `" + owner + "." + fld.Name() + "` is overwritten on every iteration of a loop and read after it"
+						rf = &core.Func{Pkg: f.Pkg, Name: "<package>"}
+					}
 					if keyed {
-						r.OK(rule, f, construct, as.Pos(), "the assignment is guarded by a match of the element's key with a loop-invariant value (unique match)")
+						r.OK(rule, rf, construct, as.Pos(), "the assignment is guarded by a match of the element's key with a loop-invariant value (unique match)")
 					} else {
-						r.Bad(rule, f, construct, as.Pos(), "`"+core.ExprStr(as)+"` assigns an iteration-dependent value with `=` on every iteration: after the loop the variable only reflects the LAST element (declaration order decides; for methods that the generator itself emits, the previous run's output decides)")
+						r.Bad(rule, rf, construct, as.Pos(), "`"+core.ExprStr(as)+"` assigns an iteration-dependent value with `=` on every iteration: after the loop the variable only reflects the LAST element (declaration order decides; for methods that the generator itself emits, the previous run's output decides)")
 					}
 				}
 				return true
